@@ -24,6 +24,14 @@ func runC03(w *World) *Result {
 	r.Rule("R-C03-arity", "helper call templates pass exactly the positional arguments the helper body reads", 5)
 	r.Rule("R-C03-dvc", "array counter incremented before the array name is formed; one global counter name", 2)
 	r.Rule("R-C03-scratch", "a helper keeps no state in a non-local variable that a helper it calls assigns", 1)
+	r.Rule("R-C03-driver", "slice/string nodes: the driver evaluates each operand once, used, in source order, then calls the converter", 5)
+	ProtoRule(w, r, "R-C03-driver", func(n string) bool {
+		switch n {
+		case "SliceAssignment", "SliceEvaluation", "StringSubscript", "SliceInstantiation", "Copy", "Len":
+			return true
+		}
+		return false
+	})
 	c03ParserSubscript(w, r)
 	c03Range(w, r)
 	for _, role := range []string{"bash", "batch"} {
